@@ -350,6 +350,50 @@ def a64_copy_add(d1: int, d2: int, imm: int, sub: bool, via_copy: bool, bump2: b
                    sample=lambda: {"d1": d1, "d2": d2, "imm": imm, "sub": sub, "via_copy": via_copy, "bump2": bump2, "imm2": imm2, "dep": expect})
 
 
+def a64_indexed_load(d1: int, p: int, pre: bool, imm: int, bump: bool) -> bool:
+    """
+    post: _
+    """
+    # the dependent load itself is post-indexed (reads [x1], then x1 += p) or pre-indexed
+    # (x1 += p, reads the new [x1])
+    if skip(locals()):
+        return True
+    ker = [inst("aarch64", "str x3, [x1, #8]", 1, disp=d1)]
+    if bump:
+        ker.append(inst("aarch64", "add x1, x1, #1", 2, imm=imm))
+    if pre:
+        ker.append(inst("aarch64", "ldr x4, [x1, #8]!", len(ker) + 1, disp=p))
+    else:
+        ker.append(inst("aarch64", "ldr x4, [x1], #8", len(ker) + 1, post=p))
+    run("aarch64", ker, 3, 2)
+    g = DG(ker, NativeParser(PA), model=mk_model("aarch64", ports=["0"], store_to_load_forward_latency=0), sem=SEM["aarch64"])
+    found = False
+    for dep, flags in g.find_depending(ker[0], ker[1:]):
+        if dep is ker[-1] and "storeload_dep" in flags:
+            found = True
+    b = imm if bump else 0
+    expect = (b + p - d1 == 0) if pre else (b - d1 == 0)
+    return verdict(found == expect, nontrivial=expect, sample=lambda: {"d1": d1, "p": p, "pre": pre, "imm": imm, "bump": bump, "dep": expect})
+
+
+def x86_rmw_between(d1: int, d2: int, d3: int, kind: int) -> bool:
+    """
+    pre: 0 <= kind <= 2
+    post: _
+    """
+    # a read-modify-write instruction on memory between store and load: to the same operand it ends the
+    # search of the first store (it overwrites the location) and is itself the producer for the load
+    if skip(locals()):
+        return True
+    k = pick(kind, 3)
+    rmw = ["addq $1, 8(%rax)", "incq 8(%rax)", "subq %rsi, 8(%rax)"][k]
+    ker = [inst("x86", "movq %rdx, 8(%rax)", 1, disp=d1), inst("x86", rmw, 2, disp=d3), inst("x86", "movq 8(%rax), %rcx", 3, disp=d2)]
+    e = run("x86", ker, 4, 1)
+    exp13 = (d2 == d1) and not (d3 == d1)
+    ok = ((1, 3) in e) == exp13 and ((2, 3) in e) == (d2 == d3)
+    return verdict(ok, nontrivial=exp13 or d2 == d3, sample=lambda: {"d1": d1, "d2": d2, "d3": d3, "rmw": rmw})
+
+
 def a64_two_bumps(d1: int, d2: int, i1: int, i2: int, k1: int, k2: int) -> bool:
     """
     pre: 1 <= k1 < 5 and 1 <= k2 < 5
@@ -417,6 +461,8 @@ CELLS = {
     "a64_index": {"fn": a64_index, "bound": "[x1, x2, lsl #n]: shifts 0..3 both sides, bumps on base or index (symbolic immediates), same/different index", "budget": {"quick": 170, "thorough": 900}},
     "a64_indexed_store": {"fn": a64_indexed_store, "bound": _B + "post- or pre-indexed store directly followed by load [x1,#d2]", "budget": {"quick": 150, "thorough": 600}},
     "a64_copy_add": {"fn": a64_copy_add, "bound": _B + "add/sub x4, x1, #imm (copy plus constant into another register), optional add on the copy, load via copy or original", "budget": {"quick": 150, "thorough": 600}},
+    "a64_indexed_load": {"fn": a64_indexed_load, "bound": _B + "the dependent load itself post- or pre-indexed, optional add on the base before it", "budget": {"quick": 150, "thorough": 600}},
+    "x86_rmw_between": {"fn": x86_rmw_between, "bound": _B + "read-modify-write on memory (add $imm / inc / sub reg) between store and load", "budget": {"quick": 150, "thorough": 600}},
     "a64_two_bumps": {"fn": a64_two_bumps, "tiers": ("thorough",), "bound": _B + "two bumps incl. post/pre-index", "budget": {"thorough": 900}},
     "a64_store_between": {"fn": a64_store_between, "bound": _B + "second store between", "budget": {"quick": 150, "thorough": 600}},
 }
